@@ -160,5 +160,29 @@ mod verif_c02ts {
         kani::cover!(!skeleton && d.x > a.x && d.x > b.x && d.x > c.x);
         kani::cover!(skeleton);
     }
+
+    /// A skeleton segment (one-pixel stroke) intersects a scanline exactly where the Bresenham line between its
+    /// two end vertices does.
+    //@harness prop=C19,C02 kind=bounded tier=quick class=P bound="segment end points within 0..=3 x 0..=3 (Bresenham loop), any row" timeout=900 kani="--no-assertion-reach-checks" fns=src/primitives/common/thick_segment.rs::ThickSegment::intersection
+    #[kani::proof]
+    #[kani::unwind(6)]
+    fn c19_thick_segment_skeleton_row() {
+        let nib = || (kani::any::<u8>() & 3) as i32;
+        let (a, b) = (Point::new(nib(), nib()), Point::new(nib(), nib()));
+        let (mut sj, mut ej) = (any_join(), any_join());
+        sj.first_edge_end = EdgeCorners { left: a, right: a };
+        sj.second_edge_start = EdgeCorners { left: a, right: a };
+        ej.first_edge_end = EdgeCorners { left: b, right: b };
+        let s = ThickSegment::new(sj, ej);
+        let y = (kani::any::<u8>() & 7) as i32 - 1;
+        let got = s.intersection(y);
+        let mut want = Scanline::new_empty(y);
+        want.bresenham_intersection(&Line::new(a, b));
+        assert!(got.is_empty() == want.is_empty());
+        if !want.is_empty() {
+            assert!(got == want);
+        }
+        kani::cover!(!want.is_empty() && a != b);
+    }
 }
 //@end
